@@ -584,7 +584,14 @@ def oracle_table(c, impl):
         if r.get("actions") != exp:
             what = ("flavor %s type %s: the text denotes %s, eups gives %s" %
                     (fl, ",".join(ty) or "-", json.dumps(exp), json.dumps(r.get("actions", r))))
-            bad.append(("wrong-actions", [fl, ty], exp, r, what))
+            if "actions" not in r:
+                kind = "raised"                 # a well-formed table makes eups raise
+            elif [a[0] for a in r["actions"]] == [a[0] for a in exp] and \
+                    [a[2] for a in r["actions"]] == [a[2] for a in exp]:
+                kind = "wrong-arguments"        # the right commands, not the arguments written
+            else:
+                kind = "wrong-branch"           # not the commands of the branches the text designates
+            bad.append((kind, [fl, ty], exp, r, what))
     return bad
 
 
@@ -670,7 +677,8 @@ def _shrink_candidates(items):
 def m_empty_branch(f):
     """D6: some branch of a chain contains no executable command"""
     c = f["input"]
-    return f["kind"] == "wrong-actions" and c.get("stream") == "table" and has_empty_branch(c["ast"])
+    return (f["kind"] in ("wrong-branch", "wrong-arguments") and c.get("stream") == "table"
+            and has_empty_branch(c["ast"]))
 
 
 # ------------------------------------------------------------------ driver
@@ -843,6 +851,8 @@ def setup(ctx):
 def run(ctx):
     setup(ctx)
     ctx.check_theorems()
+    if ctx.tier == "thorough":
+        ctx.coqchk(["Eupsv.Props.C11"])
     cases = corpus_cases()
     n_tab = ctx.size(400, 20000)
     for k in range(n_tab):
